@@ -1992,14 +1992,15 @@ new_image(Case& k, vh::Rng& rng)
 }
 
 static int
-pick_n(const Case& k, vh::Rng& rng)
+pick_n(const Case& k, vh::Rng& rng, bool thorough)
 {
-  const int views = k.c.N / 2;
+  // (quick tier: at most 4 subsets in the histories; every number of subsets is run_case's business)
+  const int views = thorough ? k.c.N / 2 : std::min(k.c.N / 2, 4);
   if (rng.range(0, 3) == 0)
     return rng.range(1, views);
   std::vector<int> d;
   for (int n = 1; n <= views; ++n)
-    if (views % n == 0)
+    if ((k.c.N / 2) % n == 0)
       d.push_back(n);
   return d[rng.range(0, static_cast<int>(d.size()) - 1)];
 }
@@ -2013,7 +2014,7 @@ run_reuse(Out& o, const Case& base, const Case* other, vh::Rng& rng, int case_id
   const int nstages = 2 + rng.range(0, thorough ? 3 : 2);
   Holder H(rng.coin() ? 0 : 1);
   Case cur = base;
-  int n = pick_n(cur, rng);
+  int n = pick_n(cur, rng, thorough);
   FileOpts fo; // the file options the object has
   const std::string totname = prefix + "_rtot.hv", subname = prefix + "_rsub%d.hv";
   auto remove_files = [&](const std::string& stem) {
@@ -2064,7 +2065,7 @@ run_reuse(Out& o, const Case& base, const Case* other, vh::Rng& rng, int case_id
             case 0:
               what = "num_subsets";
               do
-                n = pick_n(cur, rng);
+                n = pick_n(cur, rng, thorough);
               while (n == old_n && cur.c.N / 2 > 1);
               break;
             case 1:
@@ -2117,7 +2118,7 @@ run_reuse(Out& o, const Case& base, const Case* other, vh::Rng& rng, int case_id
             case 8:
               what = "everything";
               cur = *other;
-              n = pick_n(cur, rng);
+              n = pick_n(cur, rng, thorough);
               full = true;
               break;
             case 12: {
@@ -2129,7 +2130,7 @@ run_reuse(Out& o, const Case& base, const Case* other, vh::Rng& rng, int case_id
               nxt.c.maxseg = cur.c.maxseg;
               nxt.c.maxtof = cur.c.maxtof;
               cur = nxt;
-              n = pick_n(cur, rng);
+              n = pick_n(cur, rng, thorough);
               minimal.push_back([&cur](Obj& ob) {
                 ob.set_proj_data_sptr(cur.ydata);
                 ob.set_projector_pair_sptr(cur.pair);
@@ -2167,7 +2168,7 @@ run_reuse(Out& o, const Case& base, const Case* other, vh::Rng& rng, int case_id
             }
           // besides, sometimes another number of subsets
           if (m != 0 && m != 8 && m != 11 && m != 12 && rng.range(0, 2) == 0)
-            n = pick_n(cur, rng);
+            n = pick_n(cur, rng, thorough);
         }
       if (n != old_n)
         minimal.push_back([&n](Obj& ob) { ob.set_num_subsets(n); });
